@@ -65,7 +65,7 @@ def run_A(ob, twin):
     post = [ConditionExpr(ConditionExprType.POSTCONDITION, post_eval, fname, line, "twin: False" if twin else "post")]
     conds = Conditions(fn=fn, src_fn=fn, pre=pre, post=post, raises=frozenset(), sig=sig, mutable_args=None,
                        fn_syntax_messages=[], counterexample_description_maker=capture)
-    timeout = min(ob.timeout, 90.0) if twin else ob.timeout
+    timeout = min(ob.timeout, max(90.0, 0.4 * ob.timeout)) if twin else ob.timeout
     options = DEFAULT_OPTIONS.overlay(AnalysisOptionSet(per_condition_timeout=timeout,
                                                         per_path_timeout=ob.path_timeout))
     options.stats = Counter()
